@@ -10,10 +10,12 @@ VERIF = Path(__file__).resolve().parent.parent
 CLAIMS = {
     "C01": dict(
         text=("Kernel-checked theorems: for every control skeleton of the language family the TypeScript/JavaScript and "
-              "Rust analyzers compute exactly the documented depth, the Python analyzer computes it minus a characterised "
-              "offset (known findings F01a/F01b), the verdict is a threshold that flips at exactly one limit, wrapping "
+              "Rust analyzers compute exactly the documented depth, the Python analyzer computes it minus one for every skeleton "
+              "(known finding F01a, pinned by the suite; F01b, the double count of `match`, was repaired), the verdict is a threshold that flips at exactly one limit, wrapping "
               "raises depth by one; node-type tables are regenerated from /repo on every run and the model is run "
-              "against the real linter (parse shapes, per-function depth, every limit, CLI) on generated files."),
+              "against the real linter (parse shapes, per-function depth, every limit, CLI) on generated files: plain / method / arrow / "
+              "async / function-expression / generator forms, also declared under compound statements, namespaces, modules, inner classes "
+              "and traits, with blank and comment lines in front of clauses."),
         note=("Trusted: Lean kernel; CPython ast and tree-sitter parsers (shape compared on each generated file); "
               "harness and T1 extractor. Theorems range over skeleton families (no control flow inside expressions)."),
         technique="Lean 4 proof by mutual structural induction over an executable model + differential correspondence check",
@@ -42,7 +44,9 @@ CLAIMS = {
               "newline symbol (bytes or code points; with or without final newline; any line endings) and every offset: a node that starts on "
               "a character is published with 1 <= line <= number of lines and a column that indexes exactly that character in that line "
               "(reported_valid, point_char, point_row_lt), offsets and positions determine each other (offset_of_point), splitting into lines "
-              "loses nothing (join_split, split_lines_clean, split_length); and about DRY's "
+              "loses nothing (join_split, split_lines_clean, split_length), the line splitter of the code base (split_lines: LF, CRLF, CR and nothing "
+              "else) agrees with it and a character that is no line end never changes the number of lines (splitRaw_no_cr, "
+              "insert_keeps_line_count; compared with src.core.constants.split_lines on generated texts); and about DRY's "
               "original-line tracking for every normaliser/filter and window size: tracked numbers are valid, strictly increasing and survive "
               "the filter (tokenize_valid, tokenize_increasing), every window runs from the original number of its first kept line to that of its "
               "last and carries exactly those lines (windows_spec, dry_start_is_first_kept_line). Tied to /repo by linting generated py/ts/rs "
@@ -82,11 +86,13 @@ CLAIMS = {
               "walk collects exactly the files not below an always-excluded directory and not compiled artefacts "
               "(pruning = filtering, at every depth); every documented ignore-pattern form (name/, **/name/, *.ext, exact "
               "path) is matched exactly as gitignore reads it (fnmatch re-stated in Lean, lemmas about * / literals); hence "
-              "linted set = specified set (linted_eq_spec, no side conditions beyond well-formed names). Tables regenerated "
+              "linted set = specified set (linted_eq_spec, no side conditions beyond well-formed names); a run with several targets lints the "
+              "union of what each contributes, every file once, direct children only under --no-recursive (mem_lintedTargets, "
+              "lintedTargets_nodup, nonrecursive_direct_children). Tables regenerated "
               "from /repo; model compared with the real CLI on generated trees through a deny-everything file-placement probe. "
               "Three genuine defects found by the model were repaired in /repo (fix: commits a1ae4e9, bd0e3d3)."),
         note=("Trusted: Lean kernel; os.walk, fnmatch and pathlib are re-stated in Lean and only sampled against the real "
-              "ones; patterns outside the documented forms ([seq] classes, negation) are not covered; no symlinks."),
+              "ones; patterns outside the documented forms ([seq] classes, negation) are not covered; symlinks only as a spelling of the target (C09)."),
         technique="Lean 4 proof (mutual structural induction over trees, list/glob lemmas) + differential correspondence check",
         ref="DESIGN.md §3 C14"),
     "C15": dict(
@@ -122,7 +128,10 @@ CLAIMS = {
               "invariant under any permutation of the file list given order-insensitive finalize. The history model is executed on "
               "fresh per-file/finalize tables observed from /repo and must reproduce the long-lived object's outputs step by step; "
               "permutations, PYTHONHASHSEED values and project/TMPDIR snapshots are checked on the real tool. A genuine defect (stale "
-              "DRY evidence) was repaired (fix: fdb2cb6); the lint_file leak is a known finding (F08b)."),
+              "DRY evidence) was repaired (fix: fdb2cb6); the lint_file leak is a known finding (F08b). Analyzer objects that live as long "
+              "as their rule are modelled as well (SRule): a rule whose verdict ignores what the analyzer remembered is history- and "
+              "order-independent (forgetful_loop, forgetful_history_independent, forgetful_order_independent), a leaking analyzer is the "
+              "decided counter-example; the generated projects carry bait pairs that exercise exactly this obligation on the real rules."),
         note=("Interpreter hash seeds, SQLite temp files, mtimes and the real file system are observed through subprocess runs, not "
               "modelled. finalize order-insensitivity is a hypothesis of order_independent (it is C03's theorem for DRY)."),
         technique="Lean 4 proof (invariant by induction over operation histories) + history/permutation/hash-seed/side-effect differential runs",
@@ -149,7 +158,7 @@ CLAIMS = {
               "including every per-language override (cli_wins), overrides apply option by option (override_order), non-positive limits and "
               "unparsable files exit 2 (invalid_limit_exit2, unparsable_exit2), the ignore list counts from every carrier, and the three "
               "threshold shapes are monotone as sub-lists (upper/lower_limit_monotone, allow_list_monotone). Thirteen genuine defects repaired, "
-              "one recorded (lazy-ignores never reads its section). Tied to /repo by running the real CLI for all 17 documented sections: "
+              "the last recorded one (lazy-ignores never read its section) since repaired. Tied to /repo by running the real CLI for all 17 documented sections: "
               "result equal to the library run with the section the model resolves (per language), plus absolute checks per linter: "
               "enabled:false through 5 carriers x 2 spellings, threshold sweeps effective, monotone and carrier-independent, command-line "
               "option vs file, invalid values and unparsable files exit 2, top-level ignore through every carrier."),
@@ -177,7 +186,7 @@ CLAIMS = {
               "for every location of the project (hardExcluded_relocate, checkPath_relocate, markerHit_relocate), with a decided "
               "witness that a full-path substring test does depend on the location; every spelling of a location resolves to the same path "
               "(dot_is_neutral, name_dotdot_cancels, relative_eq_absolute, resolve_idempotent, spelling_does_not_change_decisions; the "
-              "model's resolution is compared with the operating system's on every spelling used). The modelled functions are run against /repo's "
+              "model's resolution, symbolic links included (walkSegsL, through_link), is compared with the operating system's on every spelling used). The modelled functions are run against /repo's "
               "(_directory_parts_in_project, _is_hardcoded_excluded, path_in_project) on generated (root, file) pairs, and the whole "
               "tool is run on one project under every excluded-directory name and test/ignore marker x 6 path spellings x every "
               "command (thorough: exhaustive, 3120 runs). Four genuine defects repaired (fix: bd0e3d3, 890ad2f, a20090b)."),
@@ -193,9 +202,12 @@ CLAIMS = {
               "raising max_small_integer never adds a report; unparsable literals are skipped; hexadecimal text is read as its base-16 "
               "value whatever its digits. Reading of literal text (Python's int(_, 0) / float re-stated) and the decision lists are "
               "executed by the Lean driver on every generated site and compared with the real CLI per line, including the delta law "
-              "on the tool itself. Four genuine defects repaired (fix: 570cd14, 41e227d, aa276d1); F02e (legacy octal) recorded."),
+              "on the tool itself. The constants-definition-module exemption is modelled (definition_file_eq_spec over regenerated thresholds "
+              "and name patterns, py_file_flag_eq_spec, small_dicts_never_exempt). Four genuine defects repaired (fix: 570cd14, 41e227d, "
+              "aa276d1); F02e (legacy octal) recorded."),
         note=("CPython's literal evaluation and the tree-sitter grammars are trusted; suffix stripping and float reading are validated "
-              "by sampling and decided examples, not proved for all texts; definition-file heuristics are outside the family."),
+              "by sampling and decided examples, not proved for all texts; the facts a definition file is judged by (constant count, integer "
+              "keys per dict) are computed by the generator, not by a model of the Python parser."),
         technique="Lean 4 proof (decision-list case analysis, list filter laws, digit-string lemmas) + per-site differential check",
         ref="DESIGN.md §3 C02"),
     "C03": dict(
@@ -222,7 +234,8 @@ CLAIMS = {
               "(regenerated tables, decide); all 64 directive cells (form x #,// x thailint/design-lint x case x bare) are honoured and "
               "do not leak. The Lean engine is run on the same text as the real IgnoreDirectiveParser for generated files, and 18 linter x "
               "language cells are exercised through the CLI with inserted directives. Six genuine defects repaired (fix: b019dd1, 941ccd3, "
-              "caa0cf6, 52e96d9, method-property); four linters without any ignore plumbing are recorded (F04p:*)."),
+              "caa0cf6, 52e96d9, method-property), and the four linters that had no ignore plumbing at all (F04p:*, first recorded) and the "
+              "str.splitlines() line look-ups (F04q) since."),
         note=("Python's re is re-stated as string functions (validated on every generated file); which linters route their violations "
               "through the engine is observed per linter, not modelled; linter-specific extras (DRY inline ranges, TS noqa) are only "
               "exercised, not modelled; repository/linter-level ignore patterns are C14/C09's subject."),
